@@ -24,7 +24,7 @@ from .. import common
 THEOREMS = ["Pt.gen_deterministic", "Pt.genMany_deterministic"]
 
 
-def run_children(ctx, seed, indices, hashseeds, multi=()):
+def run_children(ctx, seed, indices, hashseeds, multi=(), lcalls=()):
     procs = []
     for hs in hashseeds:
         sc = ctx.scratch / f"child{hs}"
@@ -36,7 +36,7 @@ def run_children(ctx, seed, indices, hashseeds, multi=()):
         env["PYTHONWARNINGS"] = "ignore"
         env["PYTATO_REPO"] = str(common.REPO)
         p = subprocess.Popen([sys.executable, "-m", "harness.child_c17", str(seed), str(out), str(hs * 2),
-                              ",".join(map(str, indices)), ",".join(map(str, multi))],
+                              ",".join(map(str, indices)), ",".join(map(str, multi)), ",".join(map(str, lcalls))],
                              cwd=str(common.VERIF), env=env,
                              stdout=subprocess.PIPE, stderr=subprocess.STDOUT, text=True)
         procs.append((hs, p, out))
@@ -73,27 +73,32 @@ def run(ctx: common.Ctx):
     step = max(1, multiout.COUNT // nmulti)
     multi = [(j * step + ctx.seed) % multiout.COUNT + (ctx.seed % 2) * multiout.COUNT for j in range(nmulti)]
     multi = sorted(set(multi))
-    res = run_children(ctx, ctx.seed + 1700, indices, hashseeds, multi)
+    from ..gen import loopycalls
+    lcalls = list(range(loopycalls.COUNT))
+    res = run_children(ctx, ctx.seed + 1700, indices, hashseeds, multi, lcalls)
     dis = 0
     mdis = 0
+    ldis = 0
     base = res[hashseeds[0]]
     fields = {"dump": "loopy kernel (canonical dump)", "cl": "OpenCL source", "py": "Python source",
               "key": "persistent key", "bound_names": "bound argument names", "py_expected": "expected arguments",
-              "arg_order": "kernel argument order",
+              "arg_order": "kernel argument order", "callees": "names of the kernels in the translation unit",
               "loopy_error": "loopy error class", "py_error": "python target error class", "cl_error": "cl error"}
     compared = {f: 0 for f in fields}
-    for i in indices + [f"m{j}" for j in multi]:
+    for i in indices + [f"m{j}" for j in multi] + [f"lc{j}" for j in lcalls]:
         dis0 = dis
         b = base[str(i)]
         if "error" in b:
             ctx.broken.append(f"c17-child:{b['error'][:80]}")
             dis += 1
             continue
-        if b.get("twice_same") is False:
-            dis += 1
-            ctx.violation("process-independence:twice-in-one-process:loopy",
-                          f"program {i}: two builds in one process give different kernels",
-                          {"program_index": i, "seed": ctx.seed + 1700})
+        for hs in hashseeds:
+            if res[hs][str(i)].get("twice_same") is False:
+                dis += 1
+                ctx.violation("process-independence:twice-in-one-process:loopy",
+                              f"program {i}: two builds in one process (hash seed {hs}) give different kernels",
+                              {"program_index": i, "seed": ctx.seed + 1700, "hash_seed": hs})
+                break
         for hs in hashseeds[1:]:
             o = res[hs][str(i)]
             for f, what in fields.items():
@@ -114,14 +119,24 @@ def run(ctx: common.Ctx):
                                   f"program {i}: {what} differs between PYTHONHASHSEED={hashseeds[0]} and {hs}: {d}",
                                   {"program_index": i, "seed": ctx.seed + 1700, "hash_seeds": [hashseeds[0], hs],
                                    "first_difference": d})
-        if isinstance(i, str):
+        if isinstance(i, str) and i.startswith("lc"):
+            ldis += dis - dis0
+            ctx.sample({"batch": "seed-sweep-loopy-calls", "program": i, "callees": b.get("callees"),
+                        "error": b.get("loopy_error")})
+        elif isinstance(i, str):
             mdis += dis - dis0
             if int(i[1:]) % 9 == 0:
                 ctx.sample({"batch": "seed-sweep-multi-output", "program": i, "what": multiout.describe(int(i[1:])),
                             "arg_order": b.get("arg_order")})
         elif i % 12 == 0:
             ctx.sample({"batch": "seed-sweep", "program": i, "artefacts": sorted(k for k in b if k in fields)})
-    ctx.note_batch("hash-seed-sweep(codegen)", nprog * (len(hashseeds) - 1), dis - mdis, exhaustive=False,
+    ctx.note_batch("hash-seed-sweep(loopy calls, with and without earlier code generation in the process)",
+                   len(lcalls) * (len(hashseeds) - 1), ldis, exhaustive=False, programs=len(lcalls),
+                   generated=sum(1 for j in lcalls if "dump" in base[f"lc{j}"]),
+                   how="harness/gen/loopycalls.py: callee kernels sharing names (renamed on a clash), chained and "
+                       "multi-output calls; the children with an odd hash seed first generate code for unrelated "
+                       "graphs whose callees have the same names and different bodies")
+    ctx.note_batch("hash-seed-sweep(codegen)", nprog * (len(hashseeds) - 1), dis - mdis - ldis, exhaustive=False,
                    programs=nprog, hash_seeds=hashseeds, artefacts_compared=compared)
     ctx.note_batch("hash-seed-sweep(multi-output codegen)", len(multi) * (len(hashseeds) - 1), mdis, exhaustive=False,
                    programs=len(multi), hash_seeds=hashseeds,
